@@ -137,6 +137,11 @@ def cases(chk):
     for disp, exc in ([("socket", "RuntimeError"), ("socket", "KeyError"), ("asyncore", "RuntimeError")] if chk.quick() else
                       [(d_, e_) for d_ in ("socket", "asyncore") for e_ in ("RuntimeError", "ValueError", "KeyError", "AttributeError")]):
         yield "dispatchers", {"dispatcher": disp, "exc": exc}
+    # a contact without a session whose key request fails: later messages of that contact are still worked on
+    for mode in ("send-raises", "error-iq", "empty-result"):
+        for group in (0, 1):
+            for later in (1, 2):
+                yield "parked", {"mode": mode, "group": group, "later": later}
     # the peer resets the connection and a write is the first to notice (asyncore calls handle_close from inside the send)
     for en in ("ECONNRESET", "EPIPE", "ENOTCONN", "ECONNABORTED"):
         for first in ("send-then-reset", "buffered-then-flush"):
@@ -179,7 +184,7 @@ def cases(chk):
 
 
 def nontrivial(stream, case):
-    if stream in ("concurrent", "coalesced", "segfail", "dispatchers", "keepalive", "numbering", "sockreset"):
+    if stream in ("concurrent", "coalesced", "segfail", "dispatchers", "keepalive", "numbering", "sockreset", "parked"):
         return repr(case)
     return (tuple(case["ops"]), tuple(case["threads"]))
 
@@ -735,7 +740,89 @@ def run_numbering(chk, case):
     return fails
 
 
+def _whisper_bytes(counter):
+    """a well-formed ratchet message (type msg) from somebody the account has never heard of"""
+    from axolotl.ecc.curve import Curve
+    from axolotl.identitykey import IdentityKey
+    from axolotl.protocol.whispermessage import WhisperMessage
+    ratchet, a, b = Curve.generateKeyPair(), Curve.generateKeyPair(), Curve.generateKeyPair()
+    m = WhisperMessage(3, bytearray(32), ratchet.getPublicKey(), counter, 0, b"\x07" * 32, IdentityKey(a.getPublicKey()), IdentityKey(b.getPublicKey()))
+    return bytes(m.serialize())
+
+
+def run_parked(chk, case):
+    """an encrypted message from a contact the account has no session with makes the receive layer park it and ask the server for the
+    contact's keys.  That request fails — the write fails in a lower layer, the server answers with an error, or with an empty list — and the
+    failure is reported where it belongs.  The stack stays usable for that contact: the next message from them is handled like the first
+    (keys are asked for again), not parked for ever without a word."""
+    from corr import c06
+    from yowsup.structs import ProtocolTreeNode as N
+    if not hasattr(chk, "stacks"):
+        chk.stacks = {}
+    fails = []
+    stack, bottom, top = c06.get_stack(chk, "1111", 1)
+    chk.parked_n = getattr(chk, "parked_n", 0) + 1
+    who = "49152880%04d@s.whatsapp.net" % chk.parked_n
+    chat = who if not case["group"] else "4915288-14%08d@g.us" % chk.parked_n
+    chk.hit("parked:" + case["mode"], "parked:group=%d" % case["group"])
+
+    def message(i):
+        attrs = {"id": "PK%d-%d" % (chk.parked_n, i), "from": chat, "t": "1500000000", "type": "text", "notify": "n"}
+        if case["group"]:
+            attrs["participant"] = who
+        return N("message", attrs, [N("enc", {"type": "msg", "v": "2"}, None, _whisper_bytes(i))])
+
+    def key_requests(frm):
+        return [n for n in bottom.sent[frm:] if getattr(n, "tag", None) == "iq" and n["type"] == "get" and n.getChild("key") is not None]
+    n0 = len(bottom.sent)
+    real_send = bottom.send
+    if case["mode"] == "send-raises":
+        def failing(data):
+            raise Boom("write error")
+        bottom.send = failing
+    raised = None
+    try:
+        bottom.toUpper(message(1))
+    except Exception as e:
+        raised = e
+    finally:
+        bottom.send = real_send
+    reqs = key_requests(n0)
+    if case["mode"] == "send-raises":
+        if not isinstance(raised, Boom):
+            fails.append(oracle("C12:error-not-reported", "message from a contact without a session, the key request's write fails: the failure did not reach the caller (%r)" % raised))
+            return fails
+    else:
+        if raised is not None or len(reqs) != 1:
+            fails.append(oracle("C12:followup-fails", "message from a contact without a session: %d key requests written, raised %r" % (len(reqs), raised)))
+            return fails
+        rid = reqs[0]["id"]
+        reply = (N("iq", {"id": rid, "type": "error", "from": "s.whatsapp.net"}, [N("error", {"code": "500", "text": "internal-server-error"})]) if case["mode"] == "error-iq"
+                 else N("iq", {"id": rid, "type": "result", "from": "s.whatsapp.net"}, [N("list")]))
+        try:
+            bottom.toUpper(reply)
+        except Exception as e:
+            fails.append(oracle("C12:followup-fails", "the server's %s to the key request raises %r" % (case["mode"], e)))
+            return fails
+    n1 = len(bottom.sent)
+    for i in range(2, 2 + case["later"]):
+        try:
+            bottom.toUpper(message(i))
+        except Exception as e:
+            fails.append(oracle("C12:followup-fails", "a later message of the same contact (key request failed before: %s) raises %r" % (case["mode"], e)))
+            return fails
+    if not key_requests(n1):
+        fails.append(oracle("C12:contact-parked-for-ever", "%s message from a contact without a session; the key request failed (%s); %d later message(s) of the same contact: no key request "
+                            "was written again — they are parked without a word, nothing will ever work them off" % ("group" if case["group"] else "direct", case["mode"], case["later"])))
+    if tracked.held_locks():
+        fails.append(oracle("C12:lock-leak:layer", "locks held after the parked-message sequence: %s" % [l.name for l in tracked.held_locks()]))
+        tracked.release_all()
+    return fails
+
+
 def run_case(chk, stream, case):
+    if stream == "parked":
+        return run_parked(chk, case)
     if stream == "sockreset":
         return run_sockreset(chk, case)
     if stream == "numbering":
@@ -902,7 +989,7 @@ def run_case(chk, stream, case):
 
 
 def shrink(stream, case):
-    if stream in ("concurrent", "dispatchers", "sockreset"):
+    if stream in ("concurrent", "dispatchers", "sockreset", "parked"):
         return
     if stream == "numbering":
         zs = case["sizes"]
